@@ -18,7 +18,8 @@ for d in $(ls -d seeded/C* seeded/A* seeded/B* seeded/D* seeded/E* seeded/F* see
 import json,sys,re
 m=json.load(open('$d/meta.json')).get('verified_by_main_agent',{})
 c=[re.match(r'C\d\d',x).group(0) for x in m.get('caught_by',[]) if re.match(r'C\d\d',x)]
-print('$own' if ('$own' in c or not c) else c[0])" 2>/dev/null || echo $own)
+print('SKIP' if (m.get('own_check_before_strengthening')=='other' and not c) else ('$own' if ('$own' in c or not c) else c[0]))" 2>/dev/null || echo $own)
+    if [ "$id" = SKIP ]; then echo "$s - skipped (recorded as outside the twenty statements)"; i=$((i+1)); continue; fi
     if [ -n "${ONLY:-}" ] && [ "$id" != "$ONLY" ]; then i=$((i+1)); continue; fi
     pf=$PWD/$d/patch.diff; [ -f $d/patch_compat.diff ] && pf=$PWD/$d/patch_compat.diff
     out=$(tools/seedlane.sh $lane $pf $id 2>&1)
